@@ -25,6 +25,7 @@ C06.i end of input is never inferred from a short single read(): `finished` is s
 import re
 from rules.common import *
 
+TECHNIQUE = ('static analysis over rustc MIR: interval analysis (R-ARITH) under validator facts, sample-value evaluation of the max_size bound, exhaustiveness of read-result handling, short-read rule (end of input only from 0 bytes / read_to_end)')
 LEVEL = "other"
 EXPLANATION = (
     "Interval analysis of the chunker arithmetic under the facts established by the parameter validator, plus CFG rules "
